@@ -743,13 +743,30 @@ impl Rasn {
         &self,
         tld: ToplevelTypeDefinition,
     ) -> Result<TokenStream, GeneratorError> {
+        self.generate_sequence_or_set_in_environment(tld, self.extensibility_environment)
+    }
+
+    /// An extension addition group is generated like a SEQUENCE type, but it is not a type
+    /// notation: `EXTENSIBILITY IMPLIED` does not add an extension marker to it.
+    pub(crate) fn generate_extension_addition_group(
+        &self,
+        tld: ToplevelTypeDefinition,
+    ) -> Result<TokenStream, GeneratorError> {
+        self.generate_sequence_or_set_in_environment(tld, ExtensibilityEnvironment::Explicit)
+    }
+
+    fn generate_sequence_or_set_in_environment(
+        &self,
+        tld: ToplevelTypeDefinition,
+        extensibility_environment: ExtensibilityEnvironment,
+    ) -> Result<TokenStream, GeneratorError> {
         match tld.ty {
             ASN1Type::Sequence(ref seq) | ASN1Type::Set(ref seq) => {
                 let name = self.to_rust_title_case(&tld.name);
                 let extensible = seq
                     .extensible
                     .or(
-                        (self.extensibility_environment == ExtensibilityEnvironment::Implied)
+                        (extensibility_environment == ExtensibilityEnvironment::Implied)
                             .then_some(seq.members.len()),
                     )
                     .map(|_| {
